@@ -7,15 +7,17 @@
        already wrote, and possibly already closed) until the listening watch is
        enabled; then accept(), the reads and the EOF happen in that order; if the
        client has closed already, a handshake reply cannot be written (EPIPE);
-     - a write to an accepted connection is read at once, in pieces of at most
-       max_bytes_read_per_iteration (2048) bytes (do_reading / read_data_into_auth),
-       the credentials byte on its own (_dbus_read_credentials_socket).
+     - a write to an accepted connection is read at once, in the pieces the transport
+       takes between two dispatches: the credentials byte on its own
+       (_dbus_read_credentials_socket), 2048 bytes during the handshake
+       (read_data_into_auth), up to 4096 bytes afterwards (do_reading loops "until
+       total > max_bytes_read_per_iteration").
 
    The theorems of Props/C10.v are about ALL bus-side histories; this file only
    picks the histories that the daemon is made to follow in the correspondence run
    and returns them, so that a run of the environment is by construction a run of
    the bus model ([env_run_is_run] in Proofs/RobustProofs.v). *)
-From DV Require Import Lib.Base Wire.Message Robust.Bus.
+From DV Require Import Lib.Base Wire.Message Robust.Bus Gen.RobustTables.
 Local Open Scope N_scope.
 
 Inductive cevent :=
@@ -26,16 +28,12 @@ Inductive cevent :=
 
 Record pending := mkPend { p_id : N; p_data : list bytes; p_closed : bool }.
 
-Definition READ_MAX : nat := 2048.
-
-Fixpoint chunks_of (fuel : nat) (d : bytes) : list bytes :=
-  match fuel with
-  | O => match d with [] => [] | _ => [d] end
-  | S f => match d with
-           | [] => []
-           | _ => firstn READ_MAX d :: chunks_of f (skipn READ_MAX d)
-           end
-  end.
+(* bytes taken from a socket before the next dispatch:
+   - handshake: read_data_into_auth reads max_bytes_read_per_iteration (2048) bytes and
+     _dbus_auth_do_work runs after every read;
+   - messages: do_reading reads 2048 bytes at a time "until total > 2048", i.e. up to 4096
+     bytes per main-loop iteration, and the dispatch comes at the end of the iteration *)
+(* READ_AUTH and READ_MSG come from Gen/RobustTables.v (lifted from dbus-transport-socket.c on every run) *)
 
 Section Env.
   Context {A S O : Type}.
@@ -44,26 +42,35 @@ Section Env.
 
   Record estate := mkE { e_bus : state A S; e_backlog : list pending }.
 
-  (* bus-side events for one write, given the phase the connection is in *)
-  Definition reads_of (st : state A S) (c : N) (d : bytes) (wok : bool) : list event :=
-    match find_conn (s_conns st) c with
-    | None => []
-    | Some x =>
-        match c_phase x, d with
-        | PCred, b :: rest => ERead c [b] wok :: map (fun x => ERead c x wok) (chunks_of (length rest) rest)
-        | _, _ => map (fun x => ERead c x wok) (chunks_of (length d) d)
+  (* how much of what is waiting in the socket the next event takes, given the phase *)
+  Definition take_size (x : conn A) : nat :=
+    match c_phase x with PCred => 1%nat | PAuth _ => READ_AUTH | PMsg => READ_MSG end.
+
+  (* one write, read piece by piece; the piece size follows the phase at that moment; what is
+     left when the connection has been dropped is never read *)
+  Fixpoint do_write (fuel : nat) (st : state A S) (c : N) (d : bytes) (wok : bool) : state A S * list (event * list (out O)) :=
+    match fuel with
+    | Datatypes.O => (st, [])
+    | Datatypes.S f =>
+        match d, find_conn (s_conns st) c with
+        | [], _ => (st, [])
+        | _, None => (st, [])
+        | _, Some x =>
+            let n := take_size x in
+            let e := ERead c (firstn n d) wok in
+            let '(st1, o1) := step P cf st e in
+            let '(st2, o2) := do_write f st1 c (skipn n d) wok in
+            (st2, (e, o1) :: o2)
         end
     end.
 
-  (* run a list of writes of one connection, each split according to the phase at that moment *)
   Fixpoint do_writes (st : state A S) (c : N) (ds : list bytes) (wok : bool) : state A S * list (event * list (out O)) :=
     match ds with
     | [] => (st, [])
     | d :: r =>
-        let evs := reads_of st c d wok in
-        let '(st1, o1) := run_steps P cf st evs in
+        let '(st1, o1) := do_write (length d) st c d wok in
         let '(st2, o2) := do_writes st1 c r wok in
-        (st2, combine evs o1 ++ o2)
+        (st2, o1 ++ o2)
     end.
 
   (* accept from the backlog while the listening watch is enabled *)
